@@ -61,6 +61,7 @@ func (H) Gen(prop string, rng *rand.Rand, tier string) *core.Plan {
 		}
 	}
 	p.Ops = append(p.Ops, core.Op{K: "compact"}, core.Op{K: "compact"})
+	p.Cfg["maporder"] = rng.Intn(2) // tape-chosen iteration order of Go maps in the code under test
 	return p
 }
 
